@@ -73,8 +73,8 @@ pub fn generate(rng: &mut Rng, thorough: bool, out: &mut Out) {
         let (q, r) = run_stream(seed, 3000);
         out.case(q, r);
     }
-    for _ in 0..(if thorough { 60 } else { 6 }) {
-        let (q, r) = run_stream(rng.next() as u32, if thorough { 6000 } else { 2000 });
+    for _ in 0..(if thorough { 60 } else { 12 }) {
+        let (q, r) = run_stream(rng.next() as u32, if thorough { 6000 } else { 4000 });
         out.case(q, r);
     }
     // the 129 raw values for which the published f32_0_1 returned 1.0, and their neighbours
